@@ -218,6 +218,17 @@ def r20_4(ctx):
         ctx.check(ok, R, key + '|closure', cb.loc(), 'closure = quad_to(q.ctrl.x, q.ctrl.y, q.to.x, q.to.y)', 'the arc callback does not forward each quadratic as quad_to(ctrl, to)')
     else:
         ctx.fail(R, key + '|closure', call_line(b, fbi), 'the arc callback is not a closure of arc(): cannot analyse (fail closed)')
+    # nothing else touches the ops: arc() appends through line_to and the callback's quad_to only (no patching of what was emitted)
+    others = []
+    for a0, v, pt, kind in an.stores:
+        r, nm = field_path(a0)
+        if r == ('param', 1) and nm[:1] == ['path'] and not (kind == 'call' and strip_all(v)[0] == 'call' and strip_all(v)[1] in (PB + 'line_to',)):
+            others.append(fmt(b, v)[:80])
+    for bi, d, ct in cs:
+        if d and d not in (PB + 'line_to',) and ct[2] and any(len(x) == 5 and x[0] == 'field' and x[2] == 'path' and x[3] == 'raqote::path_builder::PathBuilder' for a0 in ct[2] for x in subterms(a0)):
+            others.append(d)
+    ctx.check(not others, R, key + '|no patching of emitted ops', b.loc(), 'arc() reaches self.path only through line_to / quad_to',
+              'arc() also accesses self.path directly (%s): ops that were emitted are modified afterwards (e.g. the last end point overwritten with Arc::to(), which is not on the emitted curve for sweeps beyond a full turn)' % sorted(set(others)))
 
 
 def run(ctx):
